@@ -28,7 +28,8 @@ Proof. exact memoryless_spec. Qed.
 Theorem C09_cached_ok : forall ops, wf_ops ops -> cached_ok (q_cached (qrun ops)).
 Proof. exact cached_invariant. Qed.
 
-(** the window test is exactly "strictly between the two f32 bounds" (false for NaN) ... *)
+(** the window test (applied to the clamped input, which is never NaN) is exactly
+    "strictly between the two f32 bounds" ... *)
 Theorem C09_window_test : forall N v, (0 <= N <= 131)%Z ->
   in_window (mkConv N (stair_of N) f_0) v = true <->
   (fin v /\ R32 (win_lo N) < R32 v < R32 (win_hi N)).
